@@ -219,3 +219,312 @@ Proof.
     change (crc_raw c (b :: r)) with (crc_raw (crc_update c b) r).
     apply IH; [now apply crc_update_lt|exact Hr].
 Qed.
+
+(* ------------------------------------------------------------------ *)
+(* the generated tables are the images of single bytes                 *)
+(* ------------------------------------------------------------------ *)
+
+Definition tables_check : bool :=
+  forallb (fun k =>
+    forallb (fun i => tbl k (N.of_nat i) =? U (8 * (k + 1)) (N.of_nat i)) (seq 0 256))
+    (seq 0 8).
+
+Lemma tables_check_ok : tables_check = true.
+Proof. vm_compute. reflexivity. Qed.
+
+Lemma tables_ok : forall k i, (k < 8)%nat -> i < 256 -> tbl k i = U (8 * (k + 1)) i.
+Proof.
+  intros k i Hk Hi.
+  pose proof tables_check_ok as H. unfold tables_check in H.
+  rewrite forallb_forall in H.
+  specialize (H k). rewrite in_seq in H. specialize (H ltac:(lia)).
+  rewrite forallb_forall in H.
+  specialize (H (N.to_nat i)). rewrite in_seq in H. specialize (H ltac:(lia)).
+  rewrite N2Nat.id in H. now apply N.eqb_eq in H.
+Qed.
+
+(* peel the low byte off a (8*(k+1))-fold shift *)
+Lemma U_peel : forall k x, (k < 8)%nat ->
+  U (8 * (k + 1)) x = N.lxor (tbl k (N.land x 255)) (U (8 * k) (N.shiftr x 8)).
+Proof.
+  intros k x Hk.
+  rewrite (split_low_byte x) at 1. rewrite U_lxor. f_equal.
+  - symmetry. apply tables_ok; [exact Hk|apply land255_lt].
+  - replace (8 * (k + 1))%nat with (8 + 8 * k)%nat by lia.
+    rewrite U_add. f_equal. apply (U_shiftl 8).
+Qed.
+
+Lemma U8_tbl : forall x, U 8 x = N.lxor (tbl 0 (N.land x 255)) (N.shiftr x 8).
+Proof. intro x. apply (U_peel 0 x). lia. Qed.
+
+Lemma tstep_eq : forall c b, b < 256 -> tstep c b = crc_update c b.
+Proof.
+  intros c b Hb. unfold tstep, crc_update. rewrite U8_tbl. f_equal.
+  rewrite N.shiftr_lxor, (shiftr_eq_0 b 8) by exact Hb. now rewrite N.lxor_0_r.
+Qed.
+
+Lemma crc_table_eq_gen : forall l c, bytes_ok l -> crc_table_raw c l = crc_raw c l.
+Proof.
+  induction l as [|b r IH]; intros c H; [reflexivity|].
+  inversion H as [|? ? Hb Hr]; subst.
+  change (crc_table_raw c (b :: r)) with (crc_table_raw (tstep c b) r).
+  change (crc_raw c (b :: r)) with (crc_raw (crc_update c b) r).
+  rewrite tstep_eq by exact Hb. now apply IH.
+Qed.
+
+Lemma crc_table_eq : forall l c, bytes_ok l -> c < 2 ^ 32 -> crc_table_raw c l = crc_raw c l.
+Proof. intros l c H _. now apply crc_table_eq_gen. Qed.
+
+Lemma crc32c_eq : forall l, bytes_ok l -> crc32c l = crc_spec l.
+Proof. intros l H. unfold crc32c, crc_spec. now rewrite crc_table_eq_gen. Qed.
+
+(* ------------------------------------------------------------------ *)
+(* list helpers                                                        *)
+(* ------------------------------------------------------------------ *)
+
+Lemma firstn_add_app : forall (A : Type) a b (l : list A),
+  firstn (a + b) l = firstn a l ++ firstn b (skipn a l).
+Proof.
+  induction a as [|a IH]; intros b l; [reflexivity|].
+  destruct l as [|x l]; cbn [Nat.add firstn skipn app].
+  - now rewrite firstn_nil.
+  - now rewrite IH.
+Qed.
+
+Lemma skipn_add : forall (A : Type) a b (l : list A),
+  skipn (a + b) l = skipn b (skipn a l).
+Proof.
+  induction a as [|a IH]; intros b l; [reflexivity|].
+  destruct l as [|x l]; cbn [Nat.add skipn].
+  - now rewrite skipn_nil.
+  - apply IH.
+Qed.
+
+Lemma crc_raw_chunk : forall n c l, (n <= length l)%nat ->
+  crc_raw c (firstn n l) = U (8 * n) (N.lxor c (le (firstn n l))).
+Proof.
+  intros n c l Hn. rewrite crc_raw_le. now rewrite firstn_length_le.
+Qed.
+
+(* ------------------------------------------------------------------ *)
+(* slicing-by-8                                                        *)
+(* ------------------------------------------------------------------ *)
+
+Lemma slice8_step_eq : forall c w0 w1, c < 2 ^ 32 -> w0 < 2 ^ 32 -> w1 < 2 ^ 32 ->
+  slice8_step c w0 w1 = U 64 (N.lxor (N.lxor c w0) (N.shiftl w1 32)).
+Proof.
+  intros c w0 w1 Hc Hw0 Hw1.
+  unfold slice8_step; cbv zeta.
+  assert (Hc1 : N.lxor c w0 < 2 ^ 32) by now apply lxor_lt_pow2.
+  set (c1 := N.lxor c w0) in *.
+  rewrite U_lxor.
+  assert (H2 : U 64 (N.shiftl w1 32) = U 32 w1).
+  { change 64%nat with (32 + 32)%nat. rewrite U_add. f_equal. apply (U_shiftl 32). }
+  rewrite H2.
+  change 64%nat with (8 * (7 + 1))%nat. rewrite U_peel by lia.
+  change (8 * 7)%nat with (8 * (6 + 1))%nat. rewrite U_peel by lia.
+  change (8 * 6)%nat with (8 * (5 + 1))%nat. rewrite U_peel by lia.
+  change (8 * 5)%nat with (8 * (4 + 1))%nat. rewrite U_peel by lia.
+  change 32%nat with (8 * (3 + 1))%nat. rewrite U_peel by lia.
+  change (8 * 3)%nat with (8 * (2 + 1))%nat. rewrite U_peel by lia.
+  change (8 * 2)%nat with (8 * (1 + 1))%nat. rewrite U_peel by lia.
+  change (8 * 1)%nat with (8 * (0 + 1))%nat. rewrite U_peel by lia.
+  rewrite !N.shiftr_shiftr.
+  change (8 + 8 + 8 + 8) with 32. change (8 + 8 + 8) with 24.
+  change (16 + 8) with 24. change (8 + 8) with 16.
+  rewrite (shiftr_eq_0 c1 32) by exact Hc1.
+  rewrite (shiftr_eq_0 w1 32) by exact Hw1.
+  rewrite U_0. cbn [U Nat.mul].
+  xor_ac.
+Qed.
+
+Lemma le_first8 : forall l, (8 <= length l)%nat ->
+  N.lxor (le (firstn 4 l)) (N.shiftl (le (firstn 4 (skipn 4 l))) 32) = le (firstn 8 l).
+Proof.
+  intros l Hl. change (firstn 8 l) with (firstn (4 + 4) l).
+  rewrite firstn_add_app, le_app, firstn_length_le by lia. reflexivity.
+Qed.
+
+Lemma slice8_body_eq : forall n c l, c < 2 ^ 32 -> bytes_ok l -> (8 * n <= length l)%nat ->
+  slice8_body n c l = (crc_raw c (firstn (8 * n) l), skipn (8 * n) l).
+Proof.
+  induction n as [|n IH]; intros c l Hc Hl Hn.
+  - reflexivity.
+  - cbn [slice8_body].
+    assert (Hw0 : le (firstn 4 l) < 2 ^ 32).
+    { pose proof (le_lt (firstn 4 l) (bytes_ok_firstn 4 l Hl)) as H.
+      rewrite firstn_length_le in H by lia. exact H. }
+    assert (Hw1 : le (firstn 4 (skipn 4 l)) < 2 ^ 32).
+    { pose proof (le_lt (firstn 4 (skipn 4 l))
+                    (bytes_ok_firstn 4 _ (bytes_ok_skipn 4 l Hl))) as H.
+      rewrite firstn_length_le in H by (rewrite skipn_length; lia). exact H. }
+    rewrite slice8_step_eq by assumption.
+    rewrite N.lxor_assoc, le_first8 by lia.
+    change 64%nat with (8 * 8)%nat.
+    rewrite <- (crc_raw_chunk 8 c l) by lia.
+    rewrite IH.
+    + replace (8 * S n)%nat with (8 + 8 * n)%nat by lia.
+      now rewrite firstn_add_app, crc_raw_app, skipn_add.
+    + apply crc_raw_lt; [exact Hc|now apply bytes_ok_firstn].
+    + now apply bytes_ok_skipn.
+    + rewrite skipn_length. lia.
+Qed.
+
+Lemma slice8_eq : forall a c l, c < 2 ^ 32 -> bytes_ok l -> slice8 a c l = crc_raw c l.
+Proof.
+  intros a c l Hc Hl. unfold slice8; cbv zeta.
+  set (len := N.of_nat (length l)).
+  set (initial := N.min len ((4 - a) mod 4)).
+  assert (Hi : (N.to_nat initial <= length l)%nat) by lia.
+  rewrite crc_table_eq_gen by now apply bytes_ok_firstn.
+  rewrite slice8_body_eq.
+  - rewrite crc_table_eq_gen by (now apply bytes_ok_skipn; apply bytes_ok_skipn).
+    rewrite <- !crc_raw_app, app_assoc, <- firstn_add_app, <- skipn_add.
+    now rewrite firstn_skipn.
+  - apply crc_raw_lt; [exact Hc|now apply bytes_ok_firstn].
+  - now apply bytes_ok_skipn.
+  - rewrite skipn_length.
+    assert (Hd : (len - initial) / 8 * 8 <= len - initial).
+    { rewrite N.mul_comm. apply N.mul_div_le. discriminate. }
+    lia.
+Qed.
+
+Theorem crc_slice8_eq : forall a l, bytes_ok l -> crc_slice8 a l = crc_spec l.
+Proof.
+  intros a l Hl. unfold crc_slice8, crc_spec.
+  rewrite slice8_eq; [reflexivity|reflexivity|exact Hl].
+Qed.
+
+(* ------------------------------------------------------------------ *)
+(* CRC instructions                                                    *)
+(* ------------------------------------------------------------------ *)
+
+Lemma hw_body_eq : forall n c l, (8 * n <= length l)%nat ->
+  hw_body n c l = (crc_raw c (firstn (8 * n) l), skipn (8 * n) l).
+Proof.
+  induction n as [|n IH]; intros c l Hn.
+  - reflexivity.
+  - cbn [hw_body]. unfold mm_crc32_u64.
+    change 64%nat with (8 * 8)%nat.
+    rewrite <- (crc_raw_chunk 8 c l) by lia.
+    rewrite IH by (rewrite skipn_length; lia).
+    replace (8 * S n)%nat with (8 + 8 * n)%nat by lia.
+    now rewrite firstn_add_app, crc_raw_app, skipn_add.
+Qed.
+
+Lemma crc_hw_eq_gen : forall a l, crc_hw a l = crc_spec l.
+Proof.
+  intros a l. unfold crc_hw, crc_spec; cbv zeta.
+  set (len := N.of_nat (length l)).
+  set (h := hw_head_len a len).
+  assert (Hh : h <= len) by (unfold h, hw_head_len; lia).
+  change (fold_left mm_crc32_u8) with (fun l c => crc_raw c l). cbv beta.
+  rewrite hw_body_eq.
+  - rewrite <- !crc_raw_app, app_assoc, <- firstn_add_app, <- skipn_add.
+    now rewrite firstn_skipn.
+  - rewrite skipn_length.
+    assert (Hd : (len - h) / 8 * 8 <= len - h).
+    { rewrite N.mul_comm. apply N.mul_div_le. discriminate. }
+    lia.
+Qed.
+
+Theorem crc_hw_eq : forall a l, bytes_ok l -> crc_hw a l = crc_spec l.
+Proof. intros a l _. apply crc_hw_eq_gen. Qed.
+
+(* ------------------------------------------------------------------ *)
+(* header CRC (first 28 of 32 bytes)                                   *)
+(* ------------------------------------------------------------------ *)
+
+Lemma mm_u64_chunk : forall c l, length l = 8%nat -> mm_crc32_u64 c (le l) = crc_raw c l.
+Proof. intros c l Hl. unfold mm_crc32_u64. now rewrite crc_raw_le, Hl. Qed.
+
+Lemma mm_u32_chunk : forall c l, length l = 4%nat -> mm_crc32_u32 c (le l) = crc_raw c l.
+Proof. intros c l Hl. unfold mm_crc32_u32. now rewrite crc_raw_le, Hl. Qed.
+
+Lemma crc_hdr_hw_eq_gen : forall h, length h = 32%nat ->
+  crc_hdr_hw h = crc_spec (firstn 28 h).
+Proof.
+  intros h Hlen. unfold crc_hdr_hw, crc_spec; cbv zeta.
+  change (8 * 0)%nat with 0%nat. change (8 * 1)%nat with 8%nat.
+  change (8 * 2)%nat with 16%nat. change (skipn 0 h) with h.
+  rewrite !mm_u64_chunk, mm_u32_chunk
+    by (rewrite firstn_length_le; [reflexivity|rewrite ?skipn_length; lia]).
+  rewrite <- !crc_raw_app. do 2 f_equal.
+  change 28%nat with (8 + (8 + (8 + 4)))%nat.
+  rewrite !firstn_add_app, <- !skipn_add. reflexivity.
+Qed.
+
+Theorem crc_hdr_hw_eq : forall h, bytes_ok h -> length h = 32%nat ->
+  crc_hdr_hw h = crc_spec (firstn 28 h).
+Proof. intros h _. apply crc_hdr_hw_eq_gen. Qed.
+
+Lemma crc_hdr_hw32_eq_gen : forall h, length h = 32%nat ->
+  crc_hdr_hw32 h = crc_spec (firstn 28 h).
+Proof.
+  intros h Hlen. unfold crc_hdr_hw32, crc_spec; cbv zeta.
+  cbn [seq fold_left].
+  change (4 * 0)%nat with 0%nat. change (4 * 1)%nat with 4%nat.
+  change (4 * 2)%nat with 8%nat. change (4 * 3)%nat with 12%nat.
+  change (4 * 4)%nat with 16%nat. change (4 * 5)%nat with 20%nat.
+  change (4 * 6)%nat with 24%nat. change (skipn 0 h) with h.
+  rewrite !mm_u32_chunk
+    by (rewrite firstn_length_le; [reflexivity|rewrite ?skipn_length; lia]).
+  rewrite <- !crc_raw_app. do 2 f_equal.
+  change 28%nat with (4 + (4 + (4 + (4 + (4 + (4 + 4))))))%nat.
+  rewrite !firstn_add_app, <- !skipn_add. reflexivity.
+Qed.
+
+Theorem crc_hdr_hw32_eq : forall h, bytes_ok h -> length h = 32%nat ->
+  crc_hdr_hw32 h = crc_spec (firstn 28 h).
+Proof. intros h _. apply crc_hdr_hw32_eq_gen. Qed.
+
+Theorem crc_hdr_slice8_eq : forall a h, bytes_ok h -> length h = 32%nat ->
+  crc_hdr_slice8 a h = crc_spec (firstn 28 h).
+Proof.
+  intros a h Hb _. unfold crc_hdr_slice8. apply crc_slice8_eq. now apply bytes_ok_firstn.
+Qed.
+
+(* ------------------------------------------------------------------ *)
+(* the standard check value                                            *)
+(* ------------------------------------------------------------------ *)
+
+Lemma crc_check : crc_spec [49;50;51;52;53;54;55;56;57] = 0xE3069283.
+Proof. vm_compute. reflexivity. Qed.
+
+Lemma crc_spec_app : forall l1 l2,
+  crc_spec (l1 ++ l2) = N.lxor (crc_raw (crc_raw crc_init l1) l2) 0xFFFFFFFF.
+Proof. intros. unfold crc_spec. now rewrite crc_raw_app. Qed.
+
+Lemma crc_spec_lt : forall l, bytes_ok l -> crc_spec l < 2 ^ 32.
+Proof.
+  intros l H. unfold crc_spec. apply lxor_lt_pow2; [|reflexivity].
+  apply crc_raw_lt; [reflexivity|exact H].
+Qed.
+
+(* ------------------------------------------------------------------ *)
+(* the hypotheses of the property theorems are satisfiable, and every   *)
+(* code path reproduces the check value on a misaligned buffer          *)
+(* ------------------------------------------------------------------ *)
+
+Definition ex_msg : list N := [49;50;51;52;53;54;55;56;57].
+Definition ex_hdr : list N := map N.of_nat (seq 100 32).
+
+Lemma bytes_ok_dec : forall l, forallb (fun b => b <? 256) l = true -> bytes_ok l.
+Proof.
+  intros l H. apply Forall_forall. intros b Hb.
+  rewrite forallb_forall in H. apply N.ltb_lt. now apply H.
+Qed.
+
+Example ex_msg_ok : bytes_ok ex_msg.
+Proof. apply bytes_ok_dec. reflexivity. Qed.
+
+Example ex_hdr_ok : bytes_ok ex_hdr /\ length ex_hdr = 32%nat.
+Proof. split; [apply bytes_ok_dec|]; reflexivity. Qed.
+
+Example ex_paths_agree :
+  crc32c ex_msg = 0xE3069283 /\
+  crc_slice8 1 (ex_msg ++ ex_msg ++ ex_msg) = crc_spec (ex_msg ++ ex_msg ++ ex_msg) /\
+  crc_hw 3 (ex_msg ++ ex_msg ++ ex_msg) = crc_spec (ex_msg ++ ex_msg ++ ex_msg) /\
+  crc_hdr_hw ex_hdr = crc_hdr_slice8 2 ex_hdr /\
+  crc_hdr_hw32 ex_hdr = crc_hdr_hw ex_hdr.
+Proof. vm_compute. repeat split; reflexivity. Qed.
